@@ -3,7 +3,7 @@
    requester unpacks them in column-map order) is the forward exchange of Dist/Comm.v with payload "row".
    Because that exchange is natural in its payload, one check of the package on ids (fwd_ok, property C03) discharges
    the hypothesis "fetch delivers the owner's row" of the C06 / C16 theorems. *)
-From Coq Require Import List Arith Lia Bool.
+From Coq Require Import List Arith Lia Bool Permutation.
 Import ListNotations.
 From Raptor Require Import Base.Sums Sparse.Defs Sparse.Spgemm Dist.Comm Dist.CommProofs Dist.ParMat Dist.ParSpgemm.
 
@@ -55,6 +55,136 @@ Proof.
   rewrite (nth_indep _ [] (nth 0 X [])) by (rewrite map_length; exact Hlt).
   rewrite (map_nth (fun c => nth c X [])). rewrite index_of_nth' by exact Hk.
   symmetry. apply owner_row_as_nth.
+Qed.
+
+(* ---------- the reverse row exchange of mult_T (mult_T_combine): rank s sends, for every slot of its column map,
+   the row of its partial product (A_off)^T B that belongs to the owner of that global row; the owner appends what
+   it receives.  This is the reverse exchange with payload "row" and reduction "append". ---------- *)
+Definition slot_rows (tmp : csr F) (cm : list nat) : list (list (nat * F)) :=
+  map (fun g => nth g (csr_rows tmp) []) cm.
+Definition fetchT_ys (tmps : list (csr F)) (colmaps : list (list nat)) : list (list (list (nat * F))) :=
+  map (fun sc => slot_rows (fst sc) (snd sc)) (combine tmps colmaps).
+Definition fetchT_pkg (w : world) (colmaps : list (list nat)) (tmps : list (csr F)) (nloc : nat) (r li : nat)
+  : list (nat * F) :=
+  nth li (reverse (fun (b a : list (nat * F)) => b ++ a) w (fetchT_ys tmps colmaps) (repeat [] nloc) r) [].
+
+Lemma fold_app_concat {X} (ls : list (list X)) acc : fold_left (fun b a => b ++ a) ls acc = acc ++ concat ls.
+Proof.
+  revert acc. induction ls as [|l ls IH]; intros acc; simpl; [rewrite app_nil_r; reflexivity|].
+  rewrite IH, app_assoc. reflexivity.
+Qed.
+Lemma perm_flat_map {X Y} (f : X -> list Y) l l' : Permutation l l' -> Permutation (flat_map f l) (flat_map f l').
+Proof.
+  induction 1; simpl.
+  - constructor.
+  - apply Permutation_app_head. assumption.
+  - rewrite !app_assoc. apply Permutation_app_tail. apply Permutation_app_comm.
+  - eapply Permutation_trans; eassumption.
+Qed.
+Lemma flat_map_flat_map {X Y Z} (f : X -> list Y) (g : Y -> list Z) l :
+  flat_map g (flat_map f l) = flat_map (fun x => flat_map g (f x)) l.
+Proof. induction l as [|x l IH]; simpl; [reflexivity|]. rewrite flat_map_app, IH. reflexivity. Qed.
+Lemma flat_map_ext_in' {X Y} (f g : X -> list Y) l : (forall x, In x l -> f x = g x) -> flat_map f l = flat_map g l.
+Proof.
+  induction l as [|x l IH]; intros H; simpl; [reflexivity|].
+  rewrite (H x) by (left; reflexivity). f_equal. apply IH. intros y Hy. apply H. right. exact Hy.
+Qed.
+Lemma flat_map_combine_seq {X Y} (f : nat * X -> list Y) (l : list X) (d : X) : forall t,
+  flat_map f (combine (seq t (length l)) l) = flat_map (fun p => f (p, nth (p - t) l d)) (seq t (length l)).
+Proof.
+  induction l as [|x l IH]; intros t; simpl; [reflexivity|].
+  replace (t - t) with 0 by lia. f_equal. rewrite IH. apply flat_map_ext_in'.
+  intros p Hp. apply in_seq in Hp. replace (p - t) with (S (p - S t)) by lia. reflexivity.
+Qed.
+
+(* the slots of a duplicate-free column map that carry the global row g: at most one *)
+Lemma one_slot {Y} (cm : list nat) (g : nat) (h : nat -> list Y) (X : list Y) : forall t,
+  NoDup cm -> (forall j, j < length cm -> nth j cm 0 = g -> h (t + j) = X) ->
+  flat_map (fun jc => if snd jc =? g then h (fst jc) else []) (combine (seq t (length cm)) cm)
+  = if existsb (Nat.eqb g) cm then X else [].
+Proof.
+  induction cm as [|c cm IH]; intros t Hnd Hh; [reflexivity|].
+  inversion Hnd as [|? ? Hnc Hnd']; subst. cbn [length seq combine flat_map snd fst existsb].
+  destruct (c =? g) eqn:E.
+  - apply Nat.eqb_eq in E. subst c. rewrite Nat.eqb_refl. cbn [orb].
+    assert (H0 : h t = X) by (replace t with (t + 0) by lia; apply Hh; [simpl; lia|reflexivity]).
+    rewrite H0. rewrite (IH (S t) Hnd').
+    + replace (existsb (Nat.eqb g) cm) with false; [rewrite app_nil_r; reflexivity|].
+      symmetry. destruct (existsb (Nat.eqb g) cm) eqn:E2; [|reflexivity].
+      apply existsb_exists in E2. destruct E2 as [y [Hy Ey]]. apply Nat.eqb_eq in Ey. subst y. contradiction.
+    + intros j Hj Hg. exfalso. apply Hnc. rewrite <- Hg. apply nth_In. exact Hj.
+  - replace (g =? c) with false by (symmetry; rewrite Nat.eqb_sym; exact E). cbn [orb app].
+    apply (IH (S t) Hnd'). intros j Hj Hg. replace (S t + j) with (t + S j) by lia. apply Hh; [simpl; lia|exact Hg].
+Qed.
+
+Theorem fetchT_pkg_perm (w : world) (ids colmaps : list (list nat)) (tmps : list (csr F)) r li i :
+  rev_ok w ids colmaps = true -> r < length w -> length colmaps = length tmps ->
+  li < length (nth r ids []) -> nth li (nth r ids []) 0 = i ->
+  (forall s, NoDup (nth s colmaps [])) ->
+  (forall s, s < length tmps -> s <> r ->
+     nth i (csr_rows (nth s tmps (mkCsr 0 0 []))) [] <> [] -> In i (nth s colmaps [])) ->
+  ~ In i (nth r colmaps []) ->
+  Permutation (fetchT_pkg w colmaps tmps (length (nth r ids [])) r li)
+              (flat_map (fun s => if s =? r then [] else nth i (csr_rows (nth s tmps (mkCsr 0 0 []))) [])
+                        (seq 0 (length tmps))).
+Proof.
+  intros Hok Hr Hlen Hli Hi Hnd Hcov Hown. unfold fetchT_pkg.
+  set (ys := fetchT_ys tmps colmaps).
+  set (init := repeat (@nil (nat * F)) (length (nth r ids []))).
+  rewrite (reverse_hom (@nil (nat * F)) (fun b a => b ++ a) ys w init r).
+  assert (Hys_len : map (@length (list (nat * F))) ys = map (@length nat) colmaps).
+  { unfold ys, fetchT_ys. rewrite map_map. clear - Hlen. revert tmps Hlen.
+    induction colmaps as [|cm cms IH]; intros [|t ts] Hl; simpl in *; try discriminate; [reflexivity|].
+    f_equal; [unfold slot_rows; apply map_length|apply IH; lia]. }
+  assert (Hinit : length init = length (nth r ids [])) by apply repeat_length.
+  unfold rev_ok in Hok. rewrite forallb_forall in Hok. specialize (Hok r).
+  rewrite in_seq in Hok. specialize (Hok ltac:(lia)).
+  apply andb_prop in Hok. destruct Hok as [Hl Hw]. apply Nat.eqb_eq in Hl.
+  rewrite Hys_len, Hinit.
+  set (rs := reverse_sym w (map (@length nat) colmaps) (length (nth r ids [])) r) in *.
+  rewrite nth_indep with (d' := foldtok (@nil (nat * F)) (fun b a => b ++ a) ys ([], []))
+    by (rewrite map_length, combine_length; lia).
+  rewrite map_nth. rewrite combine_nth by lia.
+  unfold foldtok; cbn [fst snd]. rewrite fold_app_concat.
+  replace (nth li init []) with (@nil (nat * F)) by (symmetry; unfold init; apply nth_repeat).
+  cbn [app]. rewrite <- flat_map_concat_map.
+  assert (Hperm : Permutation (nth li rs []) (expected_wires colmaps i)).
+  { rewrite forallb_forall in Hw. specialize (Hw (li, nth li rs [])). cbn [fst snd] in Hw.
+    rewrite Hi in Hw. apply same_pairs_perm. apply Hw.
+    assert (E : (li, nth li rs []) = nth li (combine (seq 0 (length rs)) rs) (0, [])).
+    { rewrite combine_nth by apply seq_length. rewrite seq_nth by lia. reflexivity. }
+    rewrite E. apply nth_In. rewrite combine_length, seq_length. lia. }
+  eapply Permutation_trans; [apply perm_flat_map; exact Hperm|].
+  (* the expected wires, rank by rank *)
+  unfold expected_wires. rewrite flat_map_flat_map.
+  rewrite (flat_map_combine_seq _ colmaps [] 0). rewrite Hlen.
+  match goal with |- Permutation ?a ?b => replace a with b; [apply Permutation_refl|] end.
+  apply flat_map_ext_in'. intros s Hs. apply in_seq in Hs. rewrite Nat.sub_0_r. cbn [fst snd].
+  rewrite flat_map_flat_map.
+  set (row := nth i (csr_rows (nth s tmps (mkCsr 0 0 []))) []).
+  rewrite (flat_map_ext_in' _ (fun jc : nat * nat => if snd jc =? i then val (@nil (nat * F)) ys (s, fst jc) else [])).
+  2:{ intros jc _. destruct (snd jc =? i); simpl; [rewrite app_nil_r; reflexivity|reflexivity]. }
+  rewrite (one_slot (nth s colmaps []) i (fun j => val (@nil (nat * F)) ys (s, j)) row 0 (Hnd s)).
+  2:{ intros j Hj Hg. unfold val. cbn [fst snd plus].
+      unfold ys, fetchT_ys.
+      rewrite (nth_indep _ [] (slot_rows (fst (@mkCsr F 0 0 [], @nil nat)) (snd (@mkCsr F 0 0 [], @nil nat))))
+        by (rewrite map_length, combine_length; lia).
+      rewrite (map_nth (fun sc : csr F * list nat => slot_rows (fst sc) (snd sc))).
+      rewrite combine_nth by (symmetry; exact Hlen). cbn [fst snd]. unfold slot_rows.
+      rewrite (nth_indep _ [] (nth 0 (csr_rows (nth s tmps (mkCsr 0 0 []))) [])) by (rewrite map_length; exact Hj).
+      rewrite (map_nth (fun g => nth g (csr_rows (nth s tmps (mkCsr 0 0 []))) [])). rewrite Hg. reflexivity. }
+  destruct (s =? r) eqn:Esr.
+  - apply Nat.eqb_eq in Esr. subst s.
+    destruct (existsb (Nat.eqb i) (nth r colmaps [])) eqn:E; [|reflexivity].
+    apply existsb_exists in E. destruct E as [y [Hy Ey]]. apply Nat.eqb_eq in Ey. subst y. contradiction.
+  - apply Nat.eqb_neq in Esr.
+    destruct (existsb (Nat.eqb i) (nth s colmaps [])) eqn:E; [reflexivity|].
+    destruct row as [|x row'] eqn:Erow; [reflexivity|]. exfalso.
+    assert (Hin : In i (nth s colmaps [])).
+    { apply Hcov; [lia|exact Esr|]. fold row. rewrite Erow. discriminate. }
+    assert (E' : existsb (Nat.eqb i) (nth s colmaps []) = true)
+      by (apply existsb_exists; exists i; split; [exact Hin|apply Nat.eqb_refl]).
+    congruence.
 Qed.
 
 End RowExchange.
